@@ -434,7 +434,7 @@ fn variant(base: &[ModeSpec], v: usize) -> Option<Vec<ModeSpec>> {
         5 => m[0].name.push('x'),
         6 => {
             let tt = m[0].pats[0].tt;
-            if m[0].trans.iter().any(|t| t.0 == tt) { m[0].trans.retain(|t| t.0 != tt) } else { m[0].trans.push((tt, 0)); m[0].trans.sort(); }
+            if m[0].trans.iter().any(|t| t.0 == tt) { m[0].trans.retain(|t| t.0 != tt) } else { let last = m.len() - 1; m[0].trans.push((tt, last)); m[0].trans.sort(); }
         }
         7 => m[0].pats[0].p = "(".into(), // does not build
         8 => { m[0].pats.pop(); if m[0].pats.is_empty() { return None; } }
@@ -559,7 +559,7 @@ fn gen_supported(r: &mut Rng, depth: usize) -> String {
 }
 /// plants one unsupported construct somewhere
 fn gen_unsupported(r: &mut Rng, depth: usize) -> String {
-    const BAD: &[&str] = &["^", "$", "\\b", "\\B", "(?i)", "a*?", "a+?", "a??", "(?i:a)", "a{1,2}?", "\\A", "\\z", "(?s-i:b)"];
+    const BAD: &[&str] = &["^", "$", "\\b", "\\B", "(?i)", "a*?", "a+?", "a??", "(?i:a)", "a{1,2}?", "\\A", "\\z", "(?s-i:b)", "(?-i:a)", "(?-ms:a.b)", "(?i-s:a)", "(?x)", "(?U:a)"];
     if depth == 0 { return r.pick(BAD).to_string(); }
     match r.below(6) {
         0 => format!("({})", gen_unsupported(r, depth - 1)),
@@ -702,11 +702,19 @@ fn gen_case(family: &str, r: &mut Rng) -> Case {
             let uniq = format!("q{}", r.next() % 1_000_000);
             let np = 1 + r.below(3);
             let mut pats = gen_pats(r, true, np, 0);
-            pats.push(PatSpec { p: uniq, tt: 90, la: None });
-            let input = gen_input(r, 6);
+            pats.push(PatSpec { p: uniq.clone(), tt: 90, la: None });
+            // a second mode with other token types, so that transitions change behaviour
+            let np2 = 1 + r.below(2);
+            let mut pats2 = gen_pats(r, false, np2, 2);
+            for p in pats2.iter_mut() { p.tt += 40; }
+            pats2.push(PatSpec { p: uniq, tt: 91, la: None });
+            let input = gen_input(r, 7);
             let nops = 2 + r.below(5);
             let ops = (0..nops).map(|_| Op::SetMode(r.below(9))).collect();
-            Case { family: family.into(), modes: vec![ModeSpec { name: "M0".into(), pats, trans: vec![] }], input, start_offset: 0, ops, with_positions: false }
+            let t0 = pats[0].tt;
+            Case { family: family.into(), modes: vec![ModeSpec { name: "M0".into(), pats, trans: if r.below(2) == 0 { vec![(t0, 1)] } else { vec![] } },
+                                                       ModeSpec { name: "M1".into(), pats: pats2, trans: vec![] }],
+                   input, start_offset: 0, ops, with_positions: false }
         }
         "unsupported" => {
             let bad = r.below(2) == 0;
